@@ -15,6 +15,10 @@ theorem loop_table_wf : wfLoop Gen.C16.loopTable = true := by decide
 /-- every engine class of direct/nn only *adds* its batch's gradient to `.grad` (`wfEngine`): what `Ops.grad` stands for -/
 theorem engine_rows_wf : wfEngines engineRows = true := by decide
 
+/-- `div_(gradient_steps)` and `clip_grad_norm_` act on the gradients of `self.model` and of every model in
+`self.models` (what `Toy.opsAux` / `Props/C16.lean : additional_models_receive_mean` assume) -/
+theorem div_scope_eq : divScope = .allModels ∧ clipScope = .allModels := by decide
+
 /-- `(iter_idx + 1) % gradient_steps == 0` -/
 theorem step_guard_eq (it k : Nat) : step_guard (it : Int) (k : Int) = evalGuard { k := k } it .stepBranch := by
   simp only [step_guard, evalGuard]
